@@ -39,9 +39,9 @@ type c07Case struct {
 }
 
 type c07Struct struct {
-	A int32
-	B uint8
-	C [3]uint16
+	A   int32
+	B   uint8
+	C   [3]uint16
 	Pad [7]uint64 // makes the value (and with it a map item) larger than a cache line: implementations may treat big items differently
 }
 
